@@ -357,6 +357,16 @@ M("c19-metadata-sorted", ["C19"], RES,
   '                        PortMetadata(name, attrs)\n                        for name in sorted(phys_names)\n                    ])', "R-19c")
 M("c19-invert-dropped", ["C19"], RES,
   'port = io.SingleEndedPort(iop, invert=phys.invert, direction=direction)', 'port = io.SingleEndedPort(iop, direction=direction)', "R-19c")
+M("c19-hierarchy-leaf-only", ["C19"], "amaranth/build/plat.py",
+  "return separator.join(self._name_map[net][1:])", "return separator.join(self._name_map[net][-1:])", "R-19e")
+M("c19-hierarchy-keeps-design-name", ["C19"], "amaranth/build/plat.py",
+  "return separator.join(self._name_map[net][1:])", "return separator.join(self._name_map[net])", "R-19e")
+M("c19-siliconblue-clock-bare-name", ["C19"], "amaranth/vendor/_siliconblue.py",
+  'set_frequency {{signal|hierarchy(".")}} {{frequency/1000000}}', 'set_frequency {{signal.name}} {{frequency/1000000}}', "R-19e")
+M("c19-name-map-leaf-only", ["C19"], "amaranth/back/rtlil.py",
+  "self.name_map[signal] = (*self.module.name, wire.name[1:])", "self.name_map[signal] = (self.module.name[0], wire.name[1:])", "R-19e")
+M("c19-benign-hierarchy-local", ["C19"], "amaranth/build/plat.py",
+  "                return separator.join(self._name_map[net][1:])", "                path = self._name_map[net]\n                return separator.join(path[1:])", "silent")
 M("c19-set-io-swapped", ["C19"], "amaranth/vendor/_siliconblue.py",
   '                set_io {{port_name}} {{pin_name}}', '                set_io {{pin_name}} {{port_name}}', "R-19d", count=2)
 M("c19-lattice-freq-mhz", ["C19"], "amaranth/vendor/_lattice.py",
